@@ -85,35 +85,28 @@ Theorem C08_notify_sound : forall c ev ns args l,
 Proof. exact notify_sound. Qed.
 Print Assumptions C08_notify_sound.
 
-(* wait_all_or_error is FALSE of the faithful model (7.1-d) ... *)
-Theorem C08_wait_all_or_error_refuted :
-  exists c s nss auth window,
-    connected s = false /\ eio_state s = EDisconnected /\
-    rs (api_connect c nss auth true false window) s = Err ConnectionError /\
-    let s' := st (api_connect c nss auth true false window) s in
-    ~ fully_disconnected s' /\ namespaces s' = [(slash, PStr (s2l "S0"))] /\
-    api_emit (s2l "x") PNone (Some slash) None s' = (s', [], Ok None).
-Proof. exact wait_all_or_error_refuted. Qed.
-Print Assumptions C08_wait_all_or_error_refuted.
-(* ... and holds except for `namespaces`: normal return iff `namespaces` has exactly the requested
-   keys after the window; otherwise ConnectionError with the transport closed and callbacks /
-   binary packet / sid reset, fully disconnected iff nothing had been accepted *)
-Theorem C08_wait_all_or_error_except : forall c s nss auth window l,
+(* wait_all_or_error, full strength: connect(wait=True) for at least one namespace on a clean client
+   returns normally iff `namespaces` has exactly the requested keys after the wait window (the
+   transport is then still up); otherwise ConnectionError and the client is fully disconnected -
+   also when the server ended the last accepted namespace inside the window *)
+Theorem C08_wait_all_or_error : forall c s nss auth window l,
   connected s = false -> eio_state s = EDisconnected ->
   let req := match nss with None => derived_namespaces c | Some x => x end in
+  req <> [] ->
   pieces_all CONNECT (auth_value auth) req = Ok l ->
   let s1 := st (forM window (fun m => deliver c (fst m) (snd m))) (opened s req auth) in
-  W req s1 /\
+  W' req s1 /\
   (set_eqb (map fst (namespaces s1)) req = true ->
+   W req s1 /\
    rs (api_connect c nss auth true false window) s = Ok tt /\
    st (api_connect c nss auth true false window) s = with_connected s1 true) /\
   (set_eqb (map fst (namespaces s1)) req = false ->
    forall d, pieces_all DISCONNECT PNone (map fst (namespaces s1)) = Ok d ->
    rs (api_connect c nss auth true false window) s = Err ConnectionError /\
-   st (api_connect c nss auth true false window) s = failed_state s1 /\
-   (fully_disconnected (failed_state s1) <-> namespaces s1 = [])).
-Proof. exact wait_all_or_error_except. Qed.
-Print Assumptions C08_wait_all_or_error_except.
+   st (api_connect c nss auth true false window) s = down s1 /\
+   fully_disconnected (st (api_connect c nss auth true false window) s)).
+Proof. exact wait_all_or_error. Qed.
+Print Assumptions C08_wait_all_or_error.
 
 (* mirror, packet by packet *)
 Theorem C08_mirror_connect : forall c pns data s,
@@ -126,9 +119,10 @@ Theorem C08_mirror_connect : forall c pns data s,
        end.
 Proof. exact mirror_connect. Qed.
 Print Assumptions C08_mirror_connect.
-Theorem C08_mirror_disconnect_except : forall c pns s calls,
-  connected s = true -> eio_state s = EConnected ->
+Theorem C08_mirror_disconnect : forall c pns s calls,
+  eio_state s = EConnected ->
   let ns := ns_or_default pns in
+  connected s = true \/ ahas str_eqb (namespaces s) ns = true ->
   notify c ev_disconnect ns [r_server_disconnect] = Some calls -> notify c ev_final ns [] = Some [] ->
   handle_disconnect c pns s =
   match adel str_eqb (namespaces s) ns with
@@ -136,11 +130,13 @@ Theorem C08_mirror_disconnect_except : forall c pns s calls,
   | d => (with_namespaces s d, to_calls calls, Ok tt)
   end.
 Proof. exact mirror_disconnect. Qed.
-Print Assumptions C08_mirror_disconnect_except.
-Theorem C08_mirror_disconnect_ignored : forall c pns s,
-  connected s = false -> handle_disconnect c pns s = (s, [], Ok tt).
-Proof. exact mirror_disconnect_ignored. Qed.
-Print Assumptions C08_mirror_disconnect_ignored.
+Print Assumptions C08_mirror_disconnect.
+(* the only DISCONNECT that is dropped: not connected and the namespace is not listed *)
+Theorem C08_mirror_disconnect_unknown : forall c pns s,
+  connected s = false -> ahas str_eqb (namespaces s) (ns_or_default pns) = false ->
+  handle_disconnect c pns s = (s, [], Ok tt).
+Proof. exact mirror_disconnect_unknown. Qed.
+Print Assumptions C08_mirror_disconnect_unknown.
 Theorem C08_mirror_error : forall c pns data s calls,
   let ns := ns_or_default pns in
   notify c ev_connect_error ns (match data with PNone => [] | PTuple l | PList l => l | x => [x] end) = Some calls ->
@@ -149,31 +145,28 @@ Theorem C08_mirror_error : forall c pns data s calls,
    else with_namespaces s (adel str_eqb (namespaces s) ns), to_calls calls, Ok tt).
 Proof. exact mirror_error. Qed.
 Print Assumptions C08_mirror_error.
-(* the mirror clause is FALSE of the faithful model for CONNECT immediately followed by DISCONNECT
-   inside the wait window (7.1-i) *)
-Theorem C08_mirror_refuted :
-  exists c nss auth window,
-    classify_window window = [(0%Z, slash); (1%Z, slash)] /\
-    let r := step c cli_init (CConnect nss auth false true false window) in
-    snd r = [Sent (PStr (s2l "0{}")); Call 1 []; Ret PNone] /\
-    connected (fst r) = true /\ namespaces (fst r) = [(slash, PStr (s2l "S0"))] /\
-    snd (step c (fst r) (CEmit (s2l "x") PNone (Some slash) None)) = [Sent (PStr (s2l "2[""x""]"))].
-Proof. exact mirror_refuted. Qed.
-Print Assumptions C08_mirror_refuted.
+(* CONNECT immediately followed by DISCONNECT of the only requested namespace inside the wait window
+   (an always_connect refusal, 7.1-i): handlers told, namespace removed, transport closed,
+   ConnectionError, fully disconnected, emit raises *)
+Theorem C08_window_disconnect_fails_connect :
+  classify_window window_disconnect = [(0%Z, slash); (1%Z, slash)] /\
+  let r := step cfg_w cli_init (CConnect (Some [slash]) PNone false true false window_disconnect) in
+  snd r = [Sent (PStr (s2l "0{}")); Call 1 []; Call 2 [r_server_disconnect]; Raised ConnectionError] /\
+  fully_disconnected (fst r) /\
+  snd (step cfg_w (fst r) (CEmit (s2l "x") PNone (Some slash) None)) = [Raised BadNamespaceError].
+Proof. exact window_disconnect_fails_connect. Qed.
+Print Assumptions C08_window_disconnect_fails_connect.
 
 (* the checkers on the model's own runs *)
 Theorem C08_corr_accepts_model : forall c ops, corr_ok (model_case c ops) = true.
 Proof. exact corr_model. Qed.
 Print Assumptions C08_corr_accepts_model.
-Theorem C08_checker_flags_partial_acceptance :
-  c08_where (model_case cfg_w witness_partial) = Some (0%nat, B_MIRROR, sv_init).
-Proof. exact c08_flags_partial_acceptance. Qed.
-Print Assumptions C08_checker_flags_partial_acceptance.
-Theorem C08_checker_flags_window_disconnect :
-  exists m, c08_where (model_case cfg_w witness_window_disconnect) = Some (0%nat, m, sv_init) /\
-            Nat.land m B_WAIT = B_WAIT /\ Nat.land m B_MIRROR = B_MIRROR.
-Proof. exact c08_flags_window_disconnect. Qed.
-Print Assumptions C08_checker_flags_window_disconnect.
+Theorem C08_checker_accepts_partial_acceptance : c08_code (model_case cfg_w witness_partial) = 0%nat.
+Proof. exact c08_accepts_partial_acceptance. Qed.
+Print Assumptions C08_checker_accepts_partial_acceptance.
+Theorem C08_checker_accepts_window_disconnect : c08_code (model_case cfg_w witness_window_disconnect) = 0%nat.
+Proof. exact c08_accepts_window_disconnect. Qed.
+Print Assumptions C08_checker_accepts_window_disconnect.
 Theorem C08_checker_accepts_clean : c08_code (model_case cfg_w witness_clean) = 0%nat.
 Proof. exact c08_accepts_clean. Qed.
 Print Assumptions C08_checker_accepts_clean.
